@@ -17,6 +17,7 @@ import (
 	"strings"
 	"sync"
 	"testing"
+	"time"
 
 	"pgregory.net/rapid"
 )
@@ -91,12 +92,31 @@ func (h *hashState) add(s string) {
 // New creates a recorder. rule is the human statement of how cases are
 // generated and which ones count as non-trivial.
 func New(property, name, rule string) *Rec {
+	stallOnce.Do(func() { go watchStalls() })
 	return &Rec{
 		Property: property, Name: name, Rule: rule,
 		hashes:   map[uint64]struct{}{},
 		labels:   map[string]int{},
 		counters: map[string]int64{},
 		known:    map[string]int{},
+	}
+}
+
+var stallOnce sync.Once
+
+// watchStalls notices when the whole process was not scheduled for a long
+// time (a suspended or snapshotted virtual machine, a stopped process): every
+// verdict that rests on a timing margin is void then. The line it prints makes
+// the driver report a failure of this run as infrastructure trouble (exit 2),
+// not as a violation; a passing run is not affected.
+func watchStalls() {
+	const limit = 750 * time.Millisecond
+	for {
+		t0 := time.Now()
+		time.Sleep(2 * time.Millisecond)
+		if gap := time.Since(t0); gap > limit {
+			fmt.Printf("VERIF-INFRA: this process was not scheduled for %v (machine suspended or starved); timing-based verdicts of this run are void\n", gap)
+		}
 	}
 }
 
